@@ -128,10 +128,10 @@ func ruleC08CopyFields(c *Ctx) {
 			}
 			// completeness: every field of Query is carried, or is one of the enumerated per-copy resets
 			reset := map[string]string{
-				"wg":       "a copy waits for its own outstanding calls (zero WaitGroup)",
-				"dual":     "an inner array is never the dual pseudo-table",
-				"ident":    "used by the join builder only, before execution",
-				"distinct": "not carried on this tree; DISTINCT is outside C08's filter/projection grammar",
+				"wg":                  "a copy waits for its own outstanding calls (zero WaitGroup)",
+				"dual":                "an inner array is never the dual pseudo-table",
+				"ident":               "used by the join builder only, before execution",
+				"distinct":            "not carried on this tree; DISTINCT is outside C08's filter/projection grammar",
 				"postProcessors":      "a copy runs its own post-processors (fresh list)",
 				"singletonExecutions": "a copy evaluates its own rows: fresh memo (c07.own-state)",
 			}
@@ -273,7 +273,8 @@ func findRangeLoopOverField(fn *ssa.Function, name string) *loopInfo {
 }
 
 // rangeLoops recognises go/ssa's slice range lowering:
-//   header: i = phi [-1, i+1]; i1 = i + 1; if i1 < len(x) goto body else done
+//
+//	header: i = phi [-1, i+1]; i1 = i + 1; if i1 < len(x) goto body else done
 func rangeLoops(fn *ssa.Function) []*loopInfo {
 	var out []*loopInfo
 	for _, b := range fn.Blocks {
@@ -361,7 +362,6 @@ func rangeLoops(fn *ssa.Function) []*loopInfo {
 	}
 	return out
 }
-
 
 func init() { register("C08", ruleC08MixShape, ruleC08AsArrayIdentity, ruleExecKeptFresh) }
 
